@@ -276,6 +276,34 @@ fn run_history(args: &Args, hist: u64, seed: u64, n_ops: u64, out: &Mutex<Out>) 
     let _ = std::fs::remove_dir_all(&dir);
 }
 
+/// F14b: a CA whose handle contains '/' is stored under a scope that `AggregateStore::list()` cannot map
+/// back to a handle, so the maintenance runs (re-publication, renewal, start-up tasks) never visit it.
+fn slash_handle_probe(args: &Args, out: &Mutex<Out>) {
+    let dir = args.out.join("slash");
+    let mut opts = SysOpts::new(&dir);
+    opts.mem_seed = args.seed.wrapping_add(4242);
+    let sys = Sys::open(opts);
+    if sys.bootstrap().is_err() { return }
+    for h in ["plain", "org/unit"] {
+        if sys.add_ca(h).is_err() { return }
+        if sys.add_parent(h, "ta", atoms_to_resources(if h == "plain" { 0x0f } else { 0xf0 })).is_err() { return }
+        let _ = sys.sync_rounds(h, "ta", 3);
+    }
+    let number = |h: &str| -> Option<u64> { objs_json(&sys, &h.replace('/', "+"))["classes"].as_object()?.values().next()?["keys"]["current_set"]["revision"]["number"].as_u64() };
+    let before = (number("plain"), number("org/unit"));
+    let _ = sys.republish(true);
+    let after = (number("plain"), number("org/unit"));
+    let listed: Vec<String> = sys.krill.ca_manager().ca_handles().unwrap_or_default().into_iter().map(|h| h.to_string()).collect();
+    let mut o = out.lock().unwrap();
+    if before.0.is_some() && after.0 == before.0.map(|n| n + 1) && before.1.is_some() && after.1 == before.1 {
+        o.impl_failures.push(json!({"index": null, "class": {"ca_handle_contains_slash": true},
+            "what": format!("forced re-publication re-issued CA 'plain' (manifest {:?} -> {:?}) but skipped CA 'org/unit' (manifest {:?} -> {:?}); ca_handles() lists {:?}", before.0, after.0, before.1, after.1, listed)}));
+    } else if after.0 != before.0.map(|n| n + 1) {
+        o.impl_failures.push(json!({"index": null, "class": {"forced_republish_skipped": true}, "what": format!("forced re-publication did not re-issue CA 'plain': {:?} -> {:?}", before.0, after.0)}));
+    }
+    let _ = std::fs::remove_dir_all(&dir);
+}
+
 fn main() {
     let args = Args::parse("cacore");
     let n_hist = args.get_u64("histories", if args.thorough() { 64 } else { 8 });
@@ -305,6 +333,7 @@ fn main() {
             });
         }
     });
+    if args.get_u64("slash", 0) == 1 { slash_handle_probe(&args, &out); }
     let mut o = out.into_inner().unwrap();
     o.w.flush();
     write_json(&args.out.join("stats.json"), &json!({
